@@ -161,7 +161,7 @@ def run(ctx):
         ctx.ob("C02.P.body-enum-handle", f.key, "handle(from_variant(v)) per variant", ok, "per-variant handles: %s" % [(h["form"], h["source"][:100]) for h in hs])
     f = ctx.fn("darling_core::ast::data::Fields::<F>::try_from")
     if f:
-        fin = ctx.find_calls(f, r"Accumulator::finish$")
+        fin = ctx.find_calls(f, r"Accumulator::finish(_with)?$")
         cs = resalg.cases(ctx, f)
         okrows = [(c, v) for c, v in cs if v.startswith("core::result::Result::Ok{")]
         other = [(c, v) for c, v in cs if not v.startswith("core::result::Result::Ok{")]
